@@ -1,4 +1,5 @@
 import SmtpV.Proofs.AcctInv
+import SmtpV.Props.C13
 /-!
 C04, "exactly one reply per command": the number of writes on the socket, followed through the handlers of the server model.
 `nw` counts the writes (those after the close included); `owed` adds the 421 that `recover` still owes for a handler that panicked.
@@ -449,6 +450,283 @@ theorem nw_dispatch (s : S) (cmd arg : Bytes) (hl : s.cfg.lmtp = false)
   · rename_i h; simp only [h, reduceCtorEq, false_and, if_false]; rw [nw_recoverPanic]; exact owed_handleBdat _ _ hl
   · rename_i h; simp only [h, true_and]; rw [nw_recoverPanic]; exact owed_handleData _ _ hl
   · rename_i h; simp [h]
+  · rename_i h; exact absurd h hv.1
+  · rename_i h; exact absurd h hv.2.1
+  · rename_i h; exact absurd h hv.2.2
+
+/-! ### LMTP: one final reply per accepted recipient -/
+
+theorem collect_length (rcpts : List Bytes) (q : List (Bytes × BRes)) (fill : BRes) : (collect rcpts q fill).length = rcpts.length := by
+  have h := Props.C13.C13_one_per_recipient rcpts q fill
+  rw [← Props.C13.C13_model_is_spec] at h
+  have := congrArg List.length h
+  simpa using this
+
+/-- LMTP, the DATA command once accepted: one final reply per accepted recipient — or, when a backend without per-recipient
+    statuses panics, the single 421 of `recover` -/
+theorem owed_dataSync_lmtp (s : S) (id : Nat) (hl : s.cfg.lmtp = true) :
+    owed (dataSync s id) = nw s + s.c.recipients.length ∨ ((dataSync s id).2 = true ∧ owed (dataSync s id) = nw s + 1) := by
+  unfold dataSync
+  have hp := nw_popData s
+  have hpc : (popData s).2.cfg = s.cfg := (as_popData s).cfg
+  have hpr : (popData s).2.c = s.c := by unfold popData; split <;> rfl
+  generalize popData s = p at hp hpc hpr ⊢
+  obtain ⟨dec, s1⟩ := p
+  simp only [] at hp hpc hpr ⊢
+  have hb : nw (beginData s1 id dec).1 = nw s1 := rfl
+  have hbc : (beginData s1 id dec).1.cfg = s1.cfg := rfl
+  have hbr : (beginData s1 id dec).1.c = s1.c := rfl
+  generalize beginData s1 id dec = q at hb hbc hbr ⊢
+  obtain ⟨s2, k⟩ := q
+  simp only [] at hb hbc hbr ⊢
+  have h3 : nw (emit s2 (.dataBegin id k)) = nw s := by simp [isW, hb, hp]
+  have h3c : (emit s2 (.dataBegin id k)).cfg = s.cfg := hbc.trans hpc
+  have h3r : (emit s2 (.dataBegin id k)).c = s.c := hbr.trans hpr
+  generalize emit s2 (.dataBegin id k) = s3 at h3 h3c h3r ⊢
+  generalize backendRead (wireFuel s3.w) (newDataReader s3) s3.w dec.want dec.rsz [] = br
+  obtain ⟨r1, w1, octets, e⟩ := br
+  simp only []
+  have hl4 : (setW s3 w1).cfg.lmtp = true := by rw [show (setW s3 w1).cfg = s3.cfg from rfl, h3c]; exact hl
+  have h4 : nw (setW s3 w1) = nw s := h3
+  have h4r : (setW s3 w1).c = s.c := h3r
+  generalize setW s3 w1 = s4 at hl4 h4 h4r ⊢
+  simp only [hl4, Bool.not_true, Bool.false_eq_true, if_false]
+  split
+  · unfold dataFinishLmtpPlain
+    simp only []
+    split
+    · right; simp [h4]
+    · left; simp [h4, h4r]
+  · unfold dataFinishLmtpSess
+    simp only []
+    generalize applyStatuses s4.c.recipients dec.statuses [] = ap
+    obtain ⟨qq, okc⟩ := ap
+    simp only []
+    left
+    repeat' split
+    all_goals simp [h4, h4r, collect_length, isW]
+
+theorem owed_handleData_lmtp (s : S) (arg : Bytes) (hl : s.cfg.lmtp = true) :
+    owed (handleData s arg) = nw s + 1 ∨ owed (handleData s arg) = nw s + 1 + s.c.recipients.length ∨
+    ((handleData s arg).2 = true ∧ owed (handleData s arg) = nw s + 2) := by
+  unfold handleData
+  split
+  · left; simp
+  split
+  · left; simp
+  split
+  · left; simp
+  split
+  · left; simp
+  simp only []
+  have hc : (reply s 354 noEnh "Go ahead. End your data with <CR><LF>.<CR><LF>").cfg.lmtp = true := by
+    rw [reply_cfg]; exact hl
+  have hn := nw_reply s 354 noEnh "Go ahead. End your data with <CR><LF>.<CR><LF>"
+  have hr : (reply s 354 noEnh "Go ahead. End your data with <CR><LF>.<CR><LF>").c = s.c := by
+    unfold reply write; split <;> rfl
+  generalize reply s 354 noEnh "Go ahead. End your data with <CR><LF>.<CR><LF>" = s1 at hc hn hr ⊢
+  split
+  · right; right; simp [hn]
+  · rcases owed_dataSync_lmtp s1 ‹Nat› hc with h | ⟨h1, h2⟩
+    · right; left; rw [h, hn, hr]
+    · right; right; exact ⟨h1, by rw [h2, hn]⟩
+
+/-! ### BDAT in LMTP: one reply per chunk, one per recipient for the LAST one -/
+
+theorem delivWrite_c (s : S) (k : Nat) (bs : Bytes) : (delivWrite s k bs).1.c = s.c := by
+  unfold delivWrite
+  split
+  · rfl
+  · simp only []
+    split
+    · rw [delivFinish_c]; rfl
+    · rfl
+
+theorem copyChunk_c : ∀ (fuel : Nat) (s : S) (k n cap : Nat), (copyChunk fuel s k n cap).1.c = s.c := by
+  intro fuel
+  induction fuel with
+  | zero => intro s k n cap; rfl
+  | succ fuel ih =>
+    intro s k n cap
+    unfold copyChunk
+    split
+    · rfl
+    · generalize bufRead s.w (min cap n) = br
+      obtain ⟨w1, r⟩ := br
+      cases r with
+      | error e => cases e <;> rfl
+      | ok bs =>
+        simp only []
+        have h2 := delivWrite_c { s with w := w1 } k bs
+        generalize delivWrite { s with w := w1 } k bs = dw at h2 ⊢
+        obtain ⟨s1, okAll⟩ := dw
+        simp only [] at h2 ⊢
+        split
+        · rw [ih, h2]
+        · rw [h2]
+
+theorem bdatBegin_recipients (s : S) : (bdatBegin s).1.c.recipients = s.c.recipients := by
+  unfold bdatBegin
+  split
+  · rfl
+  · have hp : (popData s).2.c = s.c := by unfold popData; split <;> rfl
+    generalize popData s = p at hp ⊢
+    obtain ⟨dec, s1⟩ := p
+    simp only [] at hp ⊢
+    have hs : (startDelivery s1 dec).1.c.recipients = s1.c.recipients := rfl
+    generalize startDelivery s1 dec = q at hs ⊢
+    obtain ⟨s2, k⟩ := q
+    simp only [] at hs ⊢
+    split
+    · rw [delivFinish_c, hs, hp]
+    · rw [hs, hp]
+
+/-- the number of final replies a chunk is answered with in LMTP -/
+def chunkReplies (s : S) (last : Bool) : Nat := if last then s.c.recipients.length else 1
+
+theorem owed_bdatFail_lmtp (s : S) (k left : Nat) (last : Bool) (err : BRes) (hl : s.cfg.lmtp = true) :
+    owed (bdatFail s k left last err) = nw s + chunkReplies s last := by
+  unfold bdatFail chunkReplies
+  simp only [owed_false, nw_setLimit, nw_resetConn]
+  have h1 : nw (bdatFailReplies (setW s (discardN (wireFuel s.w) s.w left)) k last err) =
+      nw s + (if last then s.c.recipients.length else 1) := by
+    unfold bdatFailReplies
+    have hc : (setW s (discardN (wireFuel s.w) s.w left)).cfg.lmtp = true := hl
+    have hr : (setW s (discardN (wireFuel s.w) s.w left)).c = s.c := rfl
+    cases last with
+    | false => simp
+    | true =>
+      simp only [hc, Bool.and_self, if_true, hr]
+      generalize applyStatuses (s.c.bdatStatus.getD s.c.recipients) (delivDec (setW s (discardN (wireFuel s.w) s.w left)) k).statuses [] = ap
+      obtain ⟨qq, okc⟩ := ap
+      repeat' split
+      all_goals simp [collect_length]
+  split <;> simp [h1]
+
+theorem owed_bdatFinal_lmtp (s : S) (k : Nat) (hl : s.cfg.lmtp = true) : owed (bdatFinal s k) = nw s + s.c.recipients.length := by
+  unfold bdatFinal
+  simp only []
+  have h1 : nw (if delivRunning s k then delivFinish s k .eof else s) = nw s := by split <;> simp
+  have hc : (if delivRunning s k then delivFinish s k .eof else s).cfg.lmtp = true := by
+    split
+    · rw [(as_delivFinish _ _ _).cfg]; exact hl
+    · exact hl
+  have hr : (if delivRunning s k then delivFinish s k .eof else s).c = s.c := by
+    split
+    · exact delivFinish_c _ _ _
+    · rfl
+  generalize (if delivRunning s k then delivFinish s k .eof else s) = s1 at h1 hc hr ⊢
+  simp only [hc, if_true, hr]
+  generalize applyStatuses (s.c.bdatStatus.getD s.c.recipients) (delivDec s1 k).statuses [] = ap
+  obtain ⟨qq, okc⟩ := ap
+  repeat' split
+  all_goals simp [h1, collect_length]
+
+theorem owed_bdatDone_lmtp (s : S) (k size : Nat) (last : Bool) (hl : s.cfg.lmtp = true) :
+    owed (bdatDone s k size last) = nw s + chunkReplies s last := by
+  unfold bdatDone chunkReplies
+  simp only []
+  cases last with
+  | false => simp
+  | true =>
+    simp only [Bool.not_true, Bool.false_eq_true, if_false, if_true]
+    rw [owed_bdatFinal_lmtp _ _ (by exact hl)]
+    simp; rfl
+
+theorem owed_bdatAfterCopy_lmtp (s : S) (k size left : Nat) (last : Bool) (ce : CopyEnd) (hl : s.cfg.lmtp = true) :
+    owed (bdatAfterCopy s k size left last ce) = nw s + chunkReplies s last := by
+  unfold bdatAfterCopy
+  split
+  · exact owed_bdatFail_lmtp _ _ _ _ _ hl
+  · exact owed_bdatFail_lmtp _ _ _ _ _ hl
+  · simp only []
+    split <;> exact owed_bdatFail_lmtp _ _ _ _ _ hl
+  · exact owed_bdatDone_lmtp _ _ _ _ hl
+
+theorem owed_bdatChunk_lmtp (s : S) (size : Nat) (last : Bool) (hl : s.cfg.lmtp = true) :
+    owed (bdatChunk s size last) = nw s + chunkReplies s last := by
+  unfold bdatChunk
+  have h1 : nw (bdatBegin (setBdatStatus s)).1 = nw s := by simp
+  have hc1 : (bdatBegin (setBdatStatus s)).1.cfg = s.cfg := (bdatBegin_cfg _).trans (as_setBdatStatus s).cfg
+  have hr1 : (bdatBegin (setBdatStatus s)).1.c.recipients = s.c.recipients := by
+    rw [bdatBegin_recipients]; unfold setBdatStatus; split <;> rfl
+  generalize bdatBegin (setBdatStatus s) = p at h1 hc1 hr1 ⊢
+  obtain ⟨s1, k⟩ := p
+  simp only [] at h1 hc1 hr1 ⊢
+  have h2 : nw (setLimit s1 0) = nw s := by simp [h1]
+  have hc2 : (setLimit s1 0).cfg = s.cfg := hc1
+  have hr2 : (setLimit s1 0).c.recipients = s.c.recipients := hr1
+  have hl2 : (setLimit s1 0).w.limit = 0 := rfl
+  generalize setLimit s1 0 = s2 at h2 hc2 hr2 hl2 ⊢
+  have h3 := nw_copyChunk (wireFuel s2.w) s2 k size (min 32768 (max size 1))
+  have hc3 := copyChunk_cfg (wireFuel s2.w) s2 k size (min 32768 (max size 1)) hl2
+  have hr3 := copyChunk_c (wireFuel s2.w) s2 k size (min 32768 (max size 1))
+  generalize copyChunk (wireFuel s2.w) s2 k size (min 32768 (max size 1)) = q at h3 hc3 hr3 ⊢
+  obtain ⟨s3, left, ce⟩ := q
+  simp only [] at h3 hc3 hr3 ⊢
+  rw [owed_bdatAfterCopy_lmtp _ _ _ _ _ _ (by rw [hc3, hc2]; exact hl), h3, h2]
+  unfold chunkReplies
+  rw [hr3, hr2]
+
+/-- LMTP: a BDAT command is answered with one reply, or — an accepted LAST chunk, delivered or failed — with one per recipient -/
+theorem owed_handleBdat_lmtp (s : S) (arg : Bytes) (hl : s.cfg.lmtp = true) :
+    owed (handleBdat s arg) = nw s + 1 ∨ owed (handleBdat s arg) = nw s + s.c.recipients.length := by
+  unfold handleBdat
+  split
+  · left; simp
+  · simp only []
+    split
+    · left; simp
+    split
+    · left; simp
+    split
+    · left; simp
+    split
+    · left; simp
+    split
+    · left; simp
+    · rw [owed_bdatChunk_lmtp _ _ _ hl]
+      unfold chunkReplies
+      split
+      · right; rfl
+      · left; rfl
+
+
+/-- **LMTP**: every command other than AUTH/STARTTLS is answered with one reply; an accepted LAST chunk — delivered or
+    failed — with one per accepted recipient; an accepted DATA with 354 and then one per accepted recipient, or, when a
+    backend without per-recipient statuses panics, 354 and the 421 of `recover` -/
+theorem nw_dispatch_lmtp (s : S) (cmd arg : Bytes) (hl : s.cfg.lmtp = true)
+    (hv : verbOf cmd ≠ .auth ∧ verbOf cmd ≠ .starttls ∧ verbOf cmd ≠ .unknown) :
+    nw (dispatch s cmd arg) = nw s + 1 ∨
+    (verbOf cmd = .bdat ∧ nw (dispatch s cmd arg) = nw s + s.c.recipients.length) ∨
+    (verbOf cmd = .data ∧ (nw (dispatch s cmd arg) = nw s + 1 + s.c.recipients.length ∨ nw (dispatch s cmd arg) = nw s + 2)) := by
+  unfold dispatch
+  split
+  · left; simp
+  · left
+    unfold dispatchGreet
+    split
+    · simp
+    split
+    · simp
+    · rw [nw_recoverPanic]; exact owed_handleGreet _ _ _
+  · left; rw [nw_recoverPanic]; exact owed_handleMail _ _
+  · left; rw [nw_recoverPanic]; exact owed_handleRcpt _ _
+  · left; simp
+  · left; simp
+  · left; simp
+  · rename_i h
+    rw [nw_recoverPanic]
+    rcases owed_handleBdat_lmtp s arg hl with h1 | h1
+    · left; exact h1
+    · right; left; exact ⟨h, h1⟩
+  · rename_i h
+    rw [nw_recoverPanic]
+    rcases owed_handleData_lmtp s arg hl with h1 | h1 | ⟨_, h1⟩
+    · left; exact h1
+    · right; right; exact ⟨h, Or.inl h1⟩
+    · right; right; exact ⟨h, Or.inr h1⟩
+  · left; simp
   · rename_i h; exact absurd h hv.1
   · rename_i h; exact absurd h hv.2.1
   · rename_i h; exact absurd h hv.2.2
